@@ -27,6 +27,7 @@ def run_plain(case, ambient, random_state, record=1, scen=None):
     c["seed"] = ambient
     c["cfg"]["random_state"] = random_state
     c["rng_record"] = record
+    c["post_ops"] = True
     if scen:
         c.update(scen)
     w, info = scenario.execute(c, [])
@@ -78,17 +79,18 @@ def run_case(case):
         violations.append(dict(property=PROP, oracle=oracle, detail=detail, keys=dict(keys, **k)))
 
     s1, s2 = case["seed"], case["seed"] + 1
-    A1 = run_plain(case, s1, R)
+    base_scen = dict(scenario="rerun", n_total2=case["n_total"]) if case.get("rerun_arm") else None  # run() twice on the same sampler
+    A1 = run_plain(case, s1, R, scen=base_scen)
     if A1["info"].get("exc") or A1["info"].get("hang"):
         stats["aborted"] = 1
         return dict(violations=[], stats=stats, probes=probes, digest="x", distinct_key=scenario.cfg_class(case), nontrivial=False, sample=dict(exc=A1["info"].get("exc")))
-    A1b = run_plain(case, s1, R)
+    A1b = run_plain(case, s1, R, scen=base_scen)
     if A1b["digest"] != A1["digest"] or [r.digest() for r in A1b["runs"]] != [r.digest() for r in A1["runs"]]:
         V("replay.nondeterministic", "the same execution (same ambient stream state, same random_state) gave a different history or RNG event log when repeated with every random source controlled")
-    A2 = run_plain(case, s2, R)
+    A2 = run_plain(case, s2, R, scen=base_scen)
     if A2["digest"] != A1["digest"] or A2["ev"] != A1["ev"]:
         V("seed.not_reproducible", f"two samplers constructed with random_state={R} on the same inputs gave different histories/evidence ({A1['ev']!r} vs {A2['ev']!r}) when the process-wide stream was in a different state at construction")
-    B = run_plain(case, s1, R + 1)
+    B = run_plain(case, s1, R + 1, scen=base_scen)
     if B["digest"] == A1["digest"] and A2["digest"] == A1["digest"]:
         V("seed.no_effect", f"random_state={R} and random_state={R + 1} gave identical histories")
     if A2["digest"] == A1["digest"]:
@@ -162,6 +164,10 @@ def cases(seed, tier):
         c = wp.std_case(r, sch.np_seed(f"s{k}") % (2**31), kinds=("gauss", "bimodal", "hole"), scenarios=("plain",), evals=("scalar", "vector"), blobs=(0,), clustering=(k % 2 == 0), vv=False, n_totals=(64, 96))
         if r.random() < 0.5:
             c["resume_arm"] = r.randrange(3, 14)
+        if k % 7 == 3:
+            c["cfg"]["random_state"] = 0  # a falsy but perfectly valid seed
+        if k % 5 == 4:
+            c["rerun_arm"] = True
         out.append(c)
     return out
 
